@@ -252,10 +252,18 @@ class Algebra:
             args = list(e.args)
             if isinstance(f, ast.Attribute) and not recv_is_mod:
                 args = [f.value] + args
-            if e.keywords or name is None:
+            if (e.keywords and name not in ("clamp", "clip")) or name is None:
                 raise NotRational("call `%s`" % norm_text(e)[:40])
             if name in ("float", "abs") and len(args) == 1 and name == "float":
                 return self.tr(args[0])
+            if name in ("clamp", "clip", "clamp_min", "clamp_max") and 1 <= len(args) <= 3:
+                # clamp(u, lo, hi) at a point where u is one of its bounds is that bound
+                kw = {k.arg: k.value for k in e.keywords}
+                u = self.tr(args[0])
+                bounds = [self.tr(b) for b in args[1:] if not (isinstance(b, ast.Constant) and b.value is None)] + [self.tr(v) for k, v in kw.items() if k in ("min", "max")]
+                if any(u == b for b in bounds):
+                    return u
+                raise NotRational("clamp away from its bounds")
             if name == "log" and len(args) == 1:
                 return self.log(self.tr(args[0]))
             if name == "exp" and len(args) == 1:
